@@ -2,6 +2,8 @@
 
 package discovery
 
+import "github.com/libp2p/go-libp2p/core/peer"
+
 // Verification hooks (see verif_on.go). Without the `verif` build tag they are empty and inlined away.
 
-func verifEv(any, string) {}
+func verifEv(any, string, peer.ID) {}
